@@ -73,11 +73,23 @@ def end_pointers(chk, db, rule):
         def loops(node, env):
             if isinstance(node, dict):
                 e2 = env
-                if node.get('k') == 'for' and node.get('cond') is not None:
+                if node.get('k') in ('for', 'while') and node.get('cond') is not None:
                     cnd = ir.strip_all_casts(node['cond'])
-                    if cnd.get('k') == 'bin' and cnd.get('op') == '<':
+                    if cnd.get('k') == 'bin' and cnd.get('op') in ('<', '!='):
                         lv, kk = ir.strip_all_casts(cnd['l']), ir.const_of(ir.strip_all_casts(cnd['r']))
-                        if lv.get('k') == 'ref' and kk is not None:
+                        okform = cnd.get('op') == '<'
+                        if cnd.get('op') == '!=' and node.get('k') == 'for' and lv.get('k') == 'ref':
+                            # `i != K` bounds i below K when i starts at a constant not above K and is only stepped by one
+                            start = None
+                            for y2 in ir.walk(node.get('init') or {}):
+                                if y2.get('k') == 'decl':
+                                    for v2 in y2['vars']:
+                                        if v2.get('id') == lv.get('id') and v2.get('init') is not None:
+                                            start = ir.const_of(ir.strip_all_casts(v2['init']))
+                            inc = ir.strip_all_casts(node.get('inc') or {})
+                            steps = inc.get('k') == 'un' and inc.get('op') == '++' and ir.strip_all_casts(inc.get('e', {})).get('id') == lv.get('id')
+                            okform = start is not None and kk is not None and 0 <= start <= kk and steps
+                        if lv.get('k') == 'ref' and kk is not None and okform:
                             e2 = dict(env)
                             e2[lv.get('id')] = kk
                 if node.get('k') == 'un' and node.get('op') == '&':
